@@ -149,7 +149,9 @@ func (ga *GroupAggregator) isNumericAggregator(aggType AggregateType) bool {
 // shouldAllowNullValues 判断聚合函数是否应该允许NULL值
 func (ga *GroupAggregator) shouldAllowNullValues(aggType AggregateType) bool {
 	// FIRST_VALUE和LAST_VALUE函数应该允许NULL值，因为它们需要记录第一个/最后一个值，即使是NULL
-	return aggType == FirstValue || aggType == LastValue
+	// the type carries the function name as written in the query (FIRST_VALUE, First_value)
+	t := AggregateType(strings.ToLower(string(aggType)))
+	return t == FirstValue || t == LastValue
 }
 
 func (ga *GroupAggregator) Add(data any) error {
